@@ -292,3 +292,19 @@ Definition expand (m : model) : xresult :=
         (map (fun i => mkInput (Z.of_nat (nth (Z.to_nat (in_nt i)) perm O)) (in_noeoi i)) (m_inputs m))
         (map (rename_tset f) (m_sets m))
         (x_fatal st) err.
+
+(* ---------- run-time checkable side conditions of the correctness theorem (Expand_correct.v) ---------- *)
+Fixpoint nodupb (l : list nat) : bool :=
+  match l with [] => true | x :: r => negb (existsb (Nat.eqb x) r) && nodupb r end.
+
+(* the permutation built by sortTail is a permutation of [0, n) *)
+Definition perm_ok (perm : list nat) (n : nat) : bool :=
+  Nat.eqb (length perm) n && forallb (fun p => Nat.ltb p n) perm && nodupb perm.
+
+Definition expand_checks (m : model) : bool :=
+  let '(vals, st) := phase1 m in
+  let B := vals ++ map snd (x_extras st) in
+  negb (x_fatal st) &&
+  forallb (fun nt => bounded (nterms m + Z.of_nat (length (m_nonterms m))) (nt_value nt)) (m_nonterms m) &&
+  perm_ok (x_perm st) (length B) &&
+  forallb (bounded (nterms m + Z.of_nat (length B))) B.
